@@ -322,6 +322,15 @@ def judge_frac_history(seq):
                     cfgm.simulation = cfgm.simulation.model_copy(update={"tau_shower": Simulation.NuPyPropShower(etau_frac=frac, table_version="3")})
             except Exception as ex:
                 return [("valid_configuration_accepted", f"etau_frac={frac} ({how}) accepted", f"{type(ex).__name__}: {str(ex)[:100]}")]
+        # fractions outside (0, 1] offered to the live configuration: where the assignment is REFUSED, the fraction in
+        # force is the last accepted one (a refusal that leaves the refused value behind shows in the next call); where it
+        # is accepted silently (the unchanged tree does not validate assignments) the value is withdrawn again
+        for badfrac in (1.5, 0.0, -0.25):
+            try:
+                cfgm.simulation.tau_shower.etau_frac = badfrac
+            except Exception:
+                continue
+            cfgm.simulation.tau_shower.etau_frac = frac
         with RngStub(fn=lambda idx, n: np.full(n, 0.37)).installed():
             tb, tl, te, se, pe = tm(np.array([0.1, 0.3]), np.array([8.0, 10.0]))
         exp = frac * te / 1e8
